@@ -12,6 +12,7 @@ from .ExcludedGcode import EXCLUDE_EXCEPT_FIRST, EXCLUDE_EXCEPT_LAST, EXCLUDE_ME
 from .Position import Position
 from .RetractionState import RetractionState
 from .GcodeParser import GcodeParser
+from .CommonMixin import formatNumber
 
 IGNORE_GCODE_CMD = (None,)
 
@@ -585,7 +586,7 @@ class ExcludeRegionState(object):  # pylint: disable=too-many-instance-attribute
                 # The retraction was dropped because the filament is still retracted, but the
                 # printer's extruder coordinate must keep following the file
                 returnCommands = [
-                    "G92 E{e}".format(e=self.position.E_AXIS.nativeToLogical())
+                    "G92 E{e}".format(e=formatNumber(self.position.E_AXIS.nativeToLogical()))
                 ]
 
             return returnCommands
@@ -845,7 +846,7 @@ class ExcludeRegionState(object):  # pylint: disable=too-many-instance-attribute
 
         returnCommands.append(
             # Set logical extruder position
-            "G92 E{e}".format(e=self.position.E_AXIS.nativeToLogical())
+            "G92 E{e}".format(e=formatNumber(self.position.E_AXIS.nativeToLogical()))
         )
 
         # The re-positioning moves below use absolute coordinates
@@ -858,8 +859,8 @@ class ExcludeRegionState(object):  # pylint: disable=too-many-instance-attribute
         nativeNewZ = self.position.Z_AXIS.current
         nativeOldZ = self.lastPosition.Z_AXIS.current
         moveZcmd = "G0 F{f} Z{z}".format(
-            f=self.feedRate / self.feedRateUnitMultiplier,
-            z=newZ
+            f=formatNumber(self.feedRate / self.feedRateUnitMultiplier),
+            z=formatNumber(newZ)
         )
 
         if (nativeNewZ > nativeOldZ):
@@ -871,9 +872,9 @@ class ExcludeRegionState(object):  # pylint: disable=too-many-instance-attribute
             # Move X/Y axes to new position
             # Use G0 ("fast" linear move) as this is a non-extruding move
             "G0 F{f} X{x} Y{y}".format(
-                f=self.feedRate / self.feedRateUnitMultiplier,
-                x=self.position.X_AXIS.nativeToLogical(),
-                y=self.position.Y_AXIS.nativeToLogical()
+                f=formatNumber(self.feedRate / self.feedRateUnitMultiplier),
+                x=formatNumber(self.position.X_AXIS.nativeToLogical()),
+                y=formatNumber(self.position.Y_AXIS.nativeToLogical())
             )
         )
 
